@@ -117,6 +117,9 @@ func init() {
 				o.Thoroughness = uptr(100)
 			}
 			o.Virtual = r.Intn(4) == 0
+			if extremeScale(r, &o) {
+				c.Family += "+extreme-scale"
+			}
 			c.Opts = o
 			return c
 		},
